@@ -24,7 +24,7 @@ RULE = ("spelling classes: a base URL case (C01's directed corpus, frame URLs wi
         "empty '?' / '#' - each single transformation at every applicable position on the directed bases, random compositions of up to 4 elsewhere; all 4 (quoted, strip_fragment) modes; "
         "plus C(C(u)) and the cross-mode round trips on every output. A case is (base url, variant url); non-trivial = the variant string differs from the base string; distinct = distinct pair.")
 ASSUMPTIONS = ["only the transformations the statement lists; a character is toggled only if the strict decoder assigns both spellings the same bytes and it is not a delimiter of its component",
-               "'..' is never inserted directly after an empty segment (resolution order ambiguous)", "classes are judged among parseable members only"]
+               "empty segments are dropped before '.' / '..' are resolved (so 'x//../y' and 'x/../y' are spellings of the same path)", "classes are judged among parseable members only"]
 FLOORS = ["class-compared", "idempotence-checked", "mode-roundtrip-checked", "T-case-scheme-host", "T-default-port", "T-lower-hex", "T-toggle-escape", "T-punycode",
           "T-whitespace-wrap", "T-controls", "T-dot-segments", "T-empty-delims", "T-root-slash", "composed-3+", "toggle-space", "probe-unquote-path"]
 PROBE_FLOORS = ["unquote", "upper_quoted", "normpath", "canonicalize_url"]
@@ -187,8 +187,6 @@ def single_variants(base, rng):
     path = base.get("path") or []
     for i in range(len(path)):
         for ins, nm in (([["."]], "dot"), ([["%2e"]], "escdot"), ([["x"], [".."]], "updown"), ([["y"], ["%2E", "%2e"]], "escupdown"), ([[]], "empty")):
-            if nm == "empty" and "".join(path[i]).replace("%2e", ".").replace("%2E", ".") == "..":
-                continue
             d = copy.deepcopy(base)
             d["path"][i:i] = copy.deepcopy(ins)
             out.append(("dot-segments", G.render(d)))
